@@ -30,13 +30,19 @@ index of a clone / of a cloned store; C09-G: an accessor that panics killed the 
 C16-I: the Write-based entry point was only driven through a Vec; C07-J: a state that cannot be built was charged to
 another property and dropped; C17-L: the value of a node was compared with the denoted document under C02 only, not
 with what its span decodes to; C07-L: traversals were only observed on trees built from a description, never on trees
-the crate had manipulated), two were gaps in L1 itself (C19-H: XotHtml had no rule about where a CDATA section
+the crate had manipulated), three were gaps in L1 itself (C19-H: XotHtml had no rule about where a CDATA section
 may appear; C15-L: the dedup relation looked at the whole tree only, so a declaration dropped because of a binding
-outside the subtree passed) and one in L1's domain (C10-I: Representable excluded a declaration the crate has been able to write
+outside the subtree passed; C05-M: the leniency about which text node survives a merge, needed for the insert family,
+also covered `replace`), one was a fault of the machinery (C02-M: the check died on a REJECT line that was not valid JSON) and one in L1's domain (C10-I: Representable excluded a declaration the crate has been able to write
 since 82bce36).  In all other cases the trace judge
 rejected the failing input as soon as it was put in front of it.  The generators were
 extended (not special-cased: each extension is a family - an alphabet, a layout dimension, a damage kind, a mutation
-kind, an API variant) and the checks now report {nrows - nmiss_now} of the {nrows} kept changes; `meta.json` records the last run.
+kind, an API variant) and the checks now report {nrows - nmiss_now} of the {nrows} kept changes (two of them through the check of the property they break most
+directly rather than the one the agent was given: C14-J by C16, C10-M by C19); `meta.json` records the last run.
+Being reported once is not being reported reliably: three changes that an earlier revision had caught (C17-J, C01-K,
+C02-L) were missed again when unrelated generator extensions shifted the random streams - each had been caught by one or
+two lucky inputs.  For those the random luck was replaced by small deterministic families (mixed-content documents,
+top-level white-space fragments, one-special-piece value spellings), and the registered commands use a fixed seed.
 Honest caveat for round 3: the agents' five-line summaries were read before the checks were run, and some families
 were added on the strength of them beforehand (sibling after a childless declaring element in MCScope3, MCScope4,
 attribute-rename mutations, `prefix-after-scope` and `charref-overflow` damage, prefixes outside ASCII); the "first
